@@ -973,21 +973,6 @@ impl<'a> HpoTerm<'a> {
     /// # Panics
     /// TODO    
     pub fn path_to_term(&self, other: &HpoTerm) -> Option<Vec<HpoTermId>> {
-        if other.parent_of(self) {
-            return self.path_to_ancestor(other);
-        }
-        if self.parent_of(other) {
-            return other.path_to_ancestor(self).map(|terms| {
-                terms
-                    .iter()
-                    .rev()
-                    .skip(1)
-                    .chain(std::iter::once(&other.id()))
-                    .copied()
-                    .collect()
-            });
-        }
-
         self.all_common_ancestors(other)
             .iter()
             .map(|ancestor| {
@@ -1002,9 +987,15 @@ impl<'a> HpoTerm<'a> {
             })
             .min_by_key(|tuple| tuple.1)
             .map(|min| {
-                self.path_to_ancestor(&min.0)
-                    .expect("self must have a path to its ancestor")
-                    .iter()
+                let up = self
+                    .path_to_ancestor(&min.0)
+                    .expect("self must have a path to its ancestor");
+                if self != other && min.0 == *other {
+                    // `other` is the closest common ancestor: the upward
+                    // path already ends in `other`
+                    return up;
+                }
+                up.iter()
                     .chain(
                         other
                             .path_to_ancestor(&min.0)
